@@ -138,6 +138,27 @@ def check(ctx: Ctx, col: Collector, tier: str) -> None:
         else:
             col.ok("C06.ONE-PER-PARAM", f"{key0}::fields", repo.loc(VISITOR, node),
                    f"{len(appended)} appended Parameter objects: name=argument.variable.name, id=function_id/name, assigned_by=get_argument_kind(argument)")
+        # a literal default also gives the parameter its type when there is no hint; whether it does must not depend on the documentation: a parameter
+        # that reaches enter_funcdef without a code type is overwritten (type, optionality *and default*) with what the docstring says
+        infer = [x for x in ast.walk(fi.node) if isinstance(x, ast.Assign) and isinstance(x.value, ast.Call) and getattr(x.value.func, "id", "") == "mypy_expression_to_sds_type"
+                 and x.value.args and ast.unparse(x.value.args[0]) == "initializer"]
+        doc_names = {t.id for x in ast.walk(fi.node) if isinstance(x, ast.Assign) and "docstring_parser" in ast.unparse(x.value) for t in x.targets if isinstance(t, ast.Name)} | {"docstring"}
+        probs_d = []
+        for x in infer:
+            cur, prev = repo.parent(x), x
+            while cur is not None and cur is not fi.node:
+                if isinstance(cur, ast.If) and any(prev is b for b in cur.body):
+                    used = {n.id for n in ast.walk(cur.test) if isinstance(n, ast.Name)} & doc_names
+                    if used:
+                        probs_d.append(f"line {cur.lineno}: `{ast.unparse(cur.test)[:70]}` reads {sorted(used)}")
+                prev, cur = cur, repo.parent(cur)
+        keyd = f"{key0}::type-from-default-independent-of-docstring"
+        if infer and not probs_d:
+            col.ok("C06.ONE-PER-PARAM", keyd, repo.loc(VISITOR, infer[0]), "the type of an un-annotated parameter is inferred from its literal default whatever the docstring says")
+        else:
+            col.bad("C06.ONE-PER-PARAM", keyd, repo.loc(VISITOR, infer[0] if infer else fi.node), "; ".join(probs_d) or "inference from the default not found",
+                    "whether an un-annotated parameter gets its type from its literal default depends on its documentation: a documented parameter (`x : float` for `def f(x=0.5)`) then has no code type, and "
+                    "enter_funcdef replaces its default by the docstring's text (`'0.5'`, `'True'`, `\"'auto'\"` in the API JSON; `= True`, `= 'auto'` in the stub)")
         # order: the function returns the accumulator itself (no sort / reverse / filter after the loop)
         okret = all(isinstance(o.value, ListV) and o.value.open for o in rets if o.fact(f"loop@{node.lineno}:iter") is not False) and rets
         post_mut = []
